@@ -69,6 +69,15 @@ func genFaults(c *Ctx, kinds []string) {
 			faultSweep(c, p, t, kinds, true)
 		}
 	}
+	// the same stream VALUE materialised again (and a third time) after runs that ended in every way: every
+	// materialisation closes what it opened exactly once, whatever the composite kept from the runs before
+	hEnds := []string{"collect all nofault", "collect take:1 nofault", "user all err@2", "collect all cancel@1", "user all perr@1", "collect all pval@0"}
+	for _, p := range fixed {
+		for _, e1 := range hEnds {
+			c.Case(true, strings.Join([]string{p, e1, "collect all nofault"}, " || "))
+			c.Case(true, strings.Join([]string{p, e1, "collect take:1 nofault", "user all err@1", "collect all nofault"}, " || "))
+		}
+	}
 	// asynchronous stages (Buffered, concurrent map, concurrent consume): every fault position as well; the
 	// observation is taken after the library's goroutines have quiesced. Order across goroutines is schedule
 	// dependent, so these cases are decided by the spec predicate only (no comparison with the sequential model).
